@@ -29,6 +29,12 @@ class SymArray:
         return self.data.ndim
 
     @property
+    def size(self):
+        if self.length is not None:
+            raise sj.Unsupported("symnp: size of an array with symbolic length")
+        return int(self.data.size)
+
+    @property
     def shape(self):
         if self.length is None:
             return self.data.shape
